@@ -60,10 +60,14 @@ impl<'a> Message<'a> {
             } else {
                 0
             };
-            let (rest, last_param) = if let Some((rest, lp)) = trimmed[start_pos..].split_once(':')
-            {
-                // get rest. add first character length to rest length.
-                (&trimmed[0..rest.len() + start_pos], Some(lp))
+            // last (trailing) parameter starts from ':' that is first character of the word
+            // (':' inside other parameters is part of these parameters).
+            let trailing_pos = trimmed[start_pos..]
+                .match_indices(':')
+                .map(|(i, _)| i + start_pos)
+                .find(|&i| i > 0 && trimmed.as_bytes()[i - 1].is_ascii_whitespace());
+            let (rest, last_param) = if let Some(i) = trailing_pos {
+                (&trimmed[0..i], Some(&trimmed[i + 1..]))
             } else {
                 (trimmed, None)
             };
